@@ -89,9 +89,33 @@ def is_known_class(triple):
     return "-" in triple[0] and triple[2] == "ga"
 
 
+_TYPES_AT_IMPORT = []
+
+
+def other_use_of_the_type_table(k):
+    """the same process also validates documents: a release (or base product) with an unknown type is refused somewhere else"""
+    import productmd.common as c
+    import productmd.composeinfo as ci
+    import productmd.treeinfo as ti
+    if not _TYPES_AT_IMPORT:
+        _TYPES_AT_IMPORT.append(list(c.RELEASE_TYPES))
+    if k % 3 == 0:
+        return
+    for obj in ((ci.ComposeInfo().release, ci.ComposeInfo().base_product) if k % 3 == 1 else (ti.TreeInfo().release,)):
+        obj.name, obj.short, obj.version = "Fedora", "f", "23"
+        if hasattr(obj, "type"):
+            obj.type = "beta" if k % 2 else "Updates_Testing"
+        try:
+            obj.validate()
+        except (ValueError, TypeError):
+            pass
+
+
 def roundtrip_case(case):
     import productmd.common as c
     rel, bp = tuple(case["rel"]), (tuple(case["bp"]) if case["bp"] else None)
+    other_use_of_the_type_table(len(rel[0]) + len(rel[1]) + case["order"])
+    check(list(c.RELEASE_TYPES) == _TYPES_AT_IMPORT[0], "type-table-changed", lambda: "productmd.common.RELEASE_TYPES is now %r, was %r when first seen" % (list(c.RELEASE_TYPES), _TYPES_AT_IMPORT[0]))
     if is_known_class(rel) or (bp and is_known_class(bp)):
         return {"nontrivial": False, "labels": ["excluded-known"]}
     want_plain = {"short": rel[0], "version": rel[1], "type": rel[2]}
